@@ -357,7 +357,30 @@ def check_C08(chk, tier):
     run_phase(chk, "gssvx-size-query", H + "h_gssvx.c", qs, ["C08."], prec="d", budget_s=100, bounds="lwork = -1 through ?gssvx, n<=3", validate_samples=0)
 
 
-REGISTRY = {"C08": check_C08, "C18": check_C18, "C05": check_C05, "C06": check_C06, "C01": check_C01, "C02": check_C02, "C03": check_C03, "C04": check_C04}
+# ------------------------------------------------------------------------------------------------ C10 orderings / etree
+def check_C10(chk, tier):
+    chk.assumptions += ["E1 decides sp_preorder/sp_coletree/TreePostorder for every m x n pattern and every input permutation within the size bound (dimensions enumerated, pattern/permutation/SymmetricMode symbolic)",
+                        "definitional oracle: parent(j) = min{i>j : L(i,j) != 0} in the boolean Cholesky factor of (A Pc)'(A Pc)",
+                        "the built-in heuristics MMD / COLAMD are integer code of 1000-3600 lines that CBMC cannot decide even at n = 2 (DESIGN 10): their output is checked to be a bijection on the enumerated E2 cases only (not a solver verdict over patterns); their interface and everything downstream is solver-checked with an arbitrary permutation"]
+    NBq = 3 if tier == "quick" else 4
+    hs = []
+    src = [E1H + "h10.c", REPO + "/SRC/sp_preorder.c", REPO + "/SRC/sp_coletree.c", REPO + "/SRC/memory.c", REPO + "/SRC/util.c"]
+    for m in range(1, NBq + 1):
+        for n in range(1, NBq + 1):
+            if n == 4 and m >= 3:
+                for p0 in range(4): hs.append(e1.Harness("c10_%dx%d_p%d" % (m, n, p0), src, defs=["-DPREC_D", "-DNB=4", "-DFIX_M=%d" % m, "-DFIX_N=%d" % n, "-DFIX_PERM0=%d" % p0], unwind=6, timeout=3000))
+            else: hs.append(e1.Harness("c10_%dx%d" % (m, n), src, defs=["-DPREC_D", "-DNB=%d" % NBq, "-DFIX_M=%d" % m, "-DFIX_N=%d" % n], unwind=NBq + 2, timeout=3000))
+    e1.run_harnesses(chk, hs, "C10 sp_preorder/etree", "every m x n pattern with m,n <= %d (tall, square and wide), every input permutation, SymmetricMode on/off; unwind n+2 (adaptive)" % NBq)
+    # E2 side checks: built-in orderings return bijections on the enumerated patterns (enumeration, not a solver verdict)
+    cs = []
+    pats = [p for p in C.all_patterns(3, 3)] if tier == "quick" else [p for p in C.all_patterns(3, 3)] + C.full_diag_plus(4, 3)
+    for pat in pats:
+        nn = 3 if pat < 512 else 4
+        for cp in (1, 2, 3): cs.append(fcase(nn, nn, pat, colperm=cp, tune="t122", symcols=0, sym=(pat >> 2) & 1 if cp == 2 else 0))
+    run_phase(chk, "builtin-orderings/bijection (enumerated)", H + "h_factor.c", cs, ["C10."], prec="d", budget_s=200, bounds="all 512 3x3 patterns x {MMD_ATA, MMD_AT_PLUS_A, COLAMD}, concrete values (integer-only code: enumeration)", validate_samples=0)
+
+
+REGISTRY = {"C10": check_C10, "C08": check_C08, "C18": check_C18, "C05": check_C05, "C06": check_C06, "C01": check_C01, "C02": check_C02, "C03": check_C03, "C04": check_C04}
 
 
 def run(pid, tier):
